@@ -1,3 +1,4 @@
+mod auth;
 mod chain;
 mod chainrec;
 mod keys;
@@ -14,6 +15,7 @@ fn main() {
         "chain-forged" => chain::cmd_forged(&args[2], &args[3]),
         "chain-record" => chainrec::cmd_record(args[2].parse().unwrap(), &args[3]),
         "chain-unique" => chain::cmd_unique(args[2].parse().unwrap(), &args[3]),
+        "auth-replay" => auth::cmd_replay(&args[2], &args[3]),
         "chain-honest" => chain::cmd_honest(&args[2], &args[3]),
         o => {
             eprintln!("unknown command {o}");
